@@ -393,6 +393,7 @@ func inHistoryRaw(body []byte, h []string, cands []*cand) bool {
 }
 
 func runWitnessConcurrent(t *testing.T, r *rep.R, cands []*cand) {
+	gate.ReportHangs(r)
 	up := func(c, p string) wreq { return wreq{Kind: "update", Cand: c, Proof: p} }
 	get := wreq{Kind: "getsth"}
 	var scs []wscenario
